@@ -347,8 +347,13 @@ def simd_roots(F):
     for name, it in api_roots(F):
         st = (it.get('self_ty') or '').lstrip('&').replace('mut ', '')
         tn = st.rsplit('::', 1)[-1]
-        if tn in SIMD_TYPES or any(('::%s::' % t.lower()) in name.lower() and t in name for t in SIMD_TYPES if False):
+        if tn in SIMD_TYPES:
             yield name, it, tn
+        elif st in ('f32', 'f64') and it.get('trait'):
+            # scalar-left operators: impl Mul<Vec4> for f32 and friends belong to the SIMD-backed operand type
+            m = re.search(r'::(%s)\b' % '|'.join(sorted(SIMD_TYPES, key=len, reverse=True)), name)
+            if m:
+                yield name, it, m.group(1)
 
 
 def run(ctx):
